@@ -23,20 +23,20 @@ var scopes = map[string][]string{
 	"C02": {`^Failover(Of)?\.`, `^(shardedMap|shardedMapOf|syncMap)\.(Read|Write)$`},
 	"C03": {`^Failover(Of)?\.`, `^NewFailover(Of)?$`, `^WithTTL$`, `^detachedContext\.`, `^Trait(Of)?\.PrepareRead$`, `^(shardedMap|shardedMapOf|syncMap)\.Read$`},
 	"C04": {`^Failover(Of)?\.`, `^detachedContext\.`, `^NewFailover(Of)?$`, `^Trait\.TTL$`, `^(shardedMap|shardedMapOf|syncMap)\.(Read|Write|Delete|Walk)$`},
-	"C05": {`^Failover(Of)?\.`, `^NewFailover(Of)?$`, `^WithTTL$`},
-	"C06": {`^Failover(Of)?\.`, `^NewFailover(Of)?$`, `^WithTTL$`, `^TTL$`, `^SkipRead$`, `^detachedContext\.`, `^Trait\.TTL$`, `\.Read$`},
+	"C05": {`^Failover(Of)?\.`, `^NewFailover(Of)?$`, `^WithTTL$`, `^(shardedMap|shardedMapOf)\.(Read|Write|Delete)$`, `^(ShardedMap|ShardedMapOf)\.Restore$`},
+	"C06": {`^Failover(Of)?\.`, `^NewFailover(Of)?$`, `^WithTTL$`, `^TTL$`, `^SkipRead$`, `^detachedContext\.`, `^Trait\.TTL$`, `\.Read$`, `^(shardedMap|shardedMapOf|syncMap)\.Write$`},
 	"C07": {`^(shardedMap|shardedMapOf|syncMap)\.(Read|Write|Delete|ExpireAll|DeleteAll|Len|Load|Store|Walk)$`, `^Trait(Of)?\.PrepareRead$`, `^Trait\.(TTL|expireAt)$`, `^WithTTL$`, `^TTL$`, `^SkipRead$`, `^NoOp\.`, `^errExpired(Of)?\.`, `^(ShardedMap|ShardedMapOf|SyncMap)\.Restore$`},
 	"C08": {`^(shardedMap|shardedMapOf|syncMap|ShardedMap|ShardedMapOf|SyncMap|shardedMapLegacyWalkerOf)\.`},
 	"C09": {`^(shardedMap|shardedMapOf|syncMap)\.(Read|Write|Delete|Load|Store)$`, `^(ShardedMap|ShardedMapOf|SyncMap)\.Restore$`, `^Failover(Of)?\.`, `^InvalidationIndex\.(Add|invalidateByLabels)`, `^Trait(Of)?\.Notify`},
 	"C10": {`^Trait\.(TTL|expireAt|init)$`, `^NewTrait$`, `^ts$`, `^tsTime$`, `^WithTTL$`, `^TTL$`, `^Trait(Of)?\.PrepareRead$`, `\.(ExpireAt|ExpiredAt)$`, `\.Write$`, `^shardedMapLegacyWalkerOf\.Walk$`},
 	"C11": {`^Trait\.(invokeCleanup|TTL|init|janitor|heapInUseOverflow|sysOverflow|countOverflow)$`, `\.deleteExpired$`, `^NewTraitOf$`, `^New(ShardedMap|ShardedMapOf|SyncMap|Failover|FailoverOf)$`, `^(shardedMap|shardedMapOf|syncMap)\.Len$`},
-	"C12": {`^Trait\.(invokeCleanup|heapInUseOverflow|sysOverflow|countOverflow|init)$`, `\.evict`, `^New(ShardedMap|ShardedMapOf|SyncMap)$`, `^Trait(Of)?\.PrepareRead$`, `^(shardedMap|shardedMapOf|syncMap)\.(Len|ExpireAll)$`},
+	"C12": {`^Trait\.(invokeCleanup|heapInUseOverflow|sysOverflow|countOverflow|init)$`, `\.evict`, `^New(ShardedMap|ShardedMapOf|SyncMap)$`, `^Trait(Of)?\.PrepareRead$`, `^(shardedMap|shardedMapOf|syncMap)\.(Len|ExpireAll|Load)$`},
 	"C13": {`\.(Dump|Restore|Walk|WalkDumpRestorer)$`, `^ts$`, `^tsTime$`, `^GobRegister$`, `^HTTPTransfer\.Import$`, `^(shardedMap|shardedMapOf|syncMap)\.(Write|ExpireAll|DeleteAll)$`},
 	"C14": {`^HTTPTransfer\.`, `^Gob`, `^recursiveTypeHash$`},
 	"C15": {`^InvalidationIndex\.`, `^New(ShardedMap|ShardedMapOf|SyncMap|InvalidationIndex)$`, `^(shardedMap|shardedMapOf|syncMap)\.Delete$`},
-	"C16": {`^(shardedMap|shardedMapOf|syncMap|ShardedMap|ShardedMapOf|SyncMap)\.`, `^InvalidationIndex\.`, `^Invalidator\.`, `^Failover(Of)?\.Get$`, `^Trait(Of)?\.`, `^New(ShardedMap|ShardedMapOf|SyncMap)$`},
+	"C16": {`^(shardedMap|shardedMapOf|syncMap|ShardedMap|ShardedMapOf|SyncMap)\.`, `^InvalidationIndex\.`, `^Invalidator\.`, `^Failover(Of)?\.Get$`, `^Trait(Of)?\.`, `^New(ShardedMap|ShardedMapOf|SyncMap)$`, `^WithTTL$`},
 	"C17": {`^Invalidator\.`},
-	"C18": {`^Trait(Of)?\.(PrepareRead|Notify\w+|invokeCleanup|init)$`, `^NewFailover(Of)?$`, `^(shardedMap|shardedMapOf|syncMap)\.(Read|Write|Delete|ExpireAll|DeleteAll|deleteExpired|evict\w*)$`, `^Failover(Of)?\.(doBuild|refreshStale|Get)$`},
+	"C18": {`^Trait(Of)?\.(PrepareRead|Notify\w+|invokeCleanup|init)$`, `^NewFailover(Of)?$`, `^(shardedMap|shardedMapOf|syncMap)\.(Read|Write|Delete|ExpireAll|DeleteAll|deleteExpired|evict\w*)$`, `^Failover(Of)?\.(doBuild|refreshStale|Get)$`, `^NewStatsTracker$`, `^tracker\.`},
 }
 
 func scopeFunc(prop string) func(string) bool {
